@@ -10,6 +10,7 @@ import (
 	"time"
 
 	"verifharness/evid"
+	"verifharness/ircsim"
 
 	sasl "github.com/emersion/go-sasl"
 	"github.com/fluffle/goirc/client"
@@ -189,6 +190,10 @@ type c02Session struct {
 	Burst    bool `json:"burst"`
 	// Lines: K=0 probe (hostile), K=1 well-formed numbered PRIVMSG, K=2 marker
 	Lines []c02Line `json:"lines"`
+	// TempErrAt: (not in burst mode) the numbered line with this index reaches the client in two reads with a
+	// transient read error (Temporary() == true) between them, TempErrMid says where it is cut; -1 never
+	TempErrAt  int  `json:"temp_err_at"`
+	TempErrMid bool `json:"temp_err_mid_text"`
 }
 
 type c02Line struct {
@@ -197,6 +202,9 @@ type c02Line struct {
 	F   int `json:"form,omitempty"` // K=1: which well-formed shape carries the number
 	Pad int `json:"pad,omitempty"`  // K=1: bytes of padding after the number; K=0: the probe is preceded by this many filler bytes
 	T   int `json:"term,omitempty"` // line terminator: 0 CRLF, 1 bare LF, 2 CRLF + blank CRLF line, 3 LF + blank LF line, 4 CR CR LF
+	// K=0 with Pad: 0 a long unknown-verb line ending in the probe; 1 ':' + Pad non-blank bytes (no verb: the
+	// parser rejects it); 2 '@' + Pad bytes of tags and nothing else (rejected too)
+	PadForm int `json:"pad_form,omitempty"`
 }
 
 var c02Terms = []string{"\r\n", "\n", "\r\n\r\n", "\n\n", "\r\r\n"}
@@ -310,6 +318,7 @@ func genC02Session(t *rapid.T) *c02Session {
 				// a very long unknown-verb line whose tail looks like a message of ours: it must stay ONE line
 				ln.S = Q(":vsrc!v@v PRIVMSG #vchan :Sq7Gz-9999")
 				ln.Pad = rapid.SampledFrom([]int{4000, 4050, 4090, 4095, 4096, 4097, 4100, 8185, 8192, 9000}).Draw(t, "probe_pad") - rapid.IntRange(0, 40).Draw(t, "probe_pad_off")
+				ln.PadForm = rapid.SampledFrom([]int{0, 0, 1, 2}).Draw(t, "probe_pad_form")
 			}
 			s.Lines = append(s.Lines, ln)
 		default:
@@ -325,6 +334,17 @@ func genC02Session(t *rapid.T) *c02Session {
 	s.Lines = append(s.Lines, c02Line{K: 1, S: Q(fmt.Sprintf("%d", seq))})
 	for i := range s.Lines {
 		s.Lines[i].T = rapid.SampledFrom([]int{0, 0, 0, 0, 1, 1, 2, 3, 4}).Draw(t, "term")
+	}
+	s.TempErrAt = -1
+	if !s.Burst && rapid.IntRange(0, 3).Draw(t, "temp_err") == 0 {
+		var numbered []int
+		for i, ln := range s.Lines {
+			if ln.K == 1 {
+				numbered = append(numbered, i)
+			}
+		}
+		s.TempErrAt = rapid.SampledFrom(numbered).Draw(t, "temp_err_at")
+		s.TempErrMid = rapid.Bool().Draw(t, "temp_err_mid")
 	}
 	return s
 }
@@ -344,6 +364,11 @@ func runC02Session(s *c02Session) *Violation {
 		if txt := l.Text(); strings.HasPrefix(txt, pfx) && l.Nick == "vsrc" {
 			mu.Lock()
 			log = append(log, txt[len(pfx):])
+			mu.Unlock()
+		} else if strings.Contains(l.Raw, pfx) && !strings.Contains(l.Raw, "ZZLONG") {
+			// one of our numbered messages, but not as it was sent
+			mu.Lock()
+			log = append(log, fmt.Sprintf("<mangled: %.80q>", l.Raw))
 			mu.Unlock()
 		}
 	}
@@ -403,7 +428,7 @@ func runC02Session(s *c02Session) *Violation {
 			c.SendLine(w)
 		}
 	}
-	for _, ln := range s.Lines {
+	for li, ln := range s.Lines {
 		var wire string
 		if ln.K == 1 {
 			wire = fmt.Sprintf(c02Forms[ln.F%len(c02Forms)], pfx+string(ln.S)+c02Pad(ln.Pad))
@@ -411,12 +436,27 @@ func runC02Session(s *c02Session) *Violation {
 		} else {
 			wire = strings.ReplaceAll(string(ln.S), "\n", " ")
 			if ln.Pad > 0 {
-				wire = "ZZLONG " + strings.Repeat("f", ln.Pad) + wire
+				switch ln.PadForm {
+				case 1:
+					wire = ":" + strings.Repeat("f", ln.Pad)
+				case 2:
+					wire = "@" + strings.Repeat("k=v;", ln.Pad/4)
+				default:
+					wire = "ZZLONG " + strings.Repeat("f", ln.Pad) + wire
+				}
 			}
 		}
 		term := c02Terms[ln.T%len(c02Terms)]
 		if s.Burst {
 			all.WriteString(wire + term)
+		} else if li == s.TempErrAt && ln.K == 1 {
+			cut := strings.Index(wire, ":vsrc!v@v ") + len(":vsrc!v@v ")
+			if s.TempErrMid {
+				cut = strings.Index(wire, pfx) + 3
+			}
+			c.Send(wire[:cut])
+			c.SendErrOnce(ircsim.TempError{})
+			c.Send(wire[cut:] + term)
 		} else {
 			c.Send(wire + term)
 		}
@@ -424,7 +464,37 @@ func runC02Session(s *c02Session) *Violation {
 	if s.Burst {
 		c.Send(all.String())
 	}
-	if !tc.syncOut(stallTimeout()) {
+	ok := tc.syncOut(stallTimeout())
+	if !ok && s.TempErrAt >= 0 && !tc.C.Connected() {
+		// a read error - transient or not - may end the connection; what was delivered must still be lines
+		// that were sent, unaltered and in order
+		mu.Lock()
+		got := append([]string(nil), log...)
+		mu.Unlock()
+		// (lines that were read but not yet dispatched when the error struck may be discarded by the
+		// teardown, so what was delivered is a subsequence of what was sent, not necessarily a prefix)
+		j := 0
+		for _, w := range want {
+			if j < len(got) && got[j] == w {
+				j++
+			}
+		}
+		if j != len(got) {
+			clip := func(in []string) []string {
+				out := []string{}
+				for _, x := range in {
+					if len(x) > 24 {
+						x = fmt.Sprintf("%s...(%d bytes)", x[:12], len(x))
+					}
+					out = append(out, x)
+				}
+				return out
+			}
+			return violationf("C02", "after a transient read error in the middle of a line the client delivered %q, sent were %q", clip(got), clip(want))
+		}
+		return nil
+	}
+	if !ok {
 		mu.Lock()
 		got := append([]string(nil), log...)
 		mu.Unlock()
